@@ -123,6 +123,7 @@ def play_case(case_id: str, seed: int, force_variant=None, profile=None, max_ops
                 # and is not driven any further
                 stats['crash:' + name + ':' + type(e).__name__] += 1
                 meta['crash'] = (line, type(e).__name__)
+                sess.crashed = True
                 break
             if dead > 25:
                 stats['stuck'] += 1
